@@ -43,15 +43,21 @@ ASSUMPTIONS = ["item texts never contain a delimiter character; pads are plain s
                "raises is left open (either outcome accepted, counted as note 'either')",
                "debug=False, no wrong_msg, no attempt-based credit"]
 REQUIRED = {
-    'ordered': 800, 'unordered': 800, 'pc-false': 500, 'surplus': 400, 'missing': 400,
-    'surplus+partial-credit': 150, 'missing+partial-credit': 150, 'optimum-beats-positional': 300,
-    'answer-credit<1': 300, 'alt-lists>1': 300, 'expect-tuple': 80, 'item-alternatives': 300,
-    'delim/::': 150, 'delim/;': 150, 'delim/|': 100, 'form/string': 200, 'form/infer': 150, 'form/list': 800,
-    'nested': 500, 'nested/string-or-infer': 80, 'blank-graded': 80, 'spaces': 500,
-    'error/length': 150, 'error/missing': 150, 'error/inner': 30,
-    'msg/shown': 300, 'msg/withheld-zero-item': 300, 'msg/must-appear': 150,
-    'pc-false/full': 100, 'pc-false/zeroed-partial': 150, 'pc-false/full-with-credit<1': 15,
-    'perm-invariance-checked': 500, 'grade/partial': 1000, 'grade/clamped-at-0': 100,
+    # random parts (flat + nested)
+    'ordered': 1500, 'unordered': 1500, 'pc-false': 1000, 'surplus': 300, 'missing': 250,
+    'surplus+partial-credit': 200, 'missing+partial-credit': 120, 'optimum-beats-positional': 500,
+    'answer-credit<1': 300, 'alt-lists>1': 1200, 'expect-tuple': 500, 'item-alternatives': 900,
+    'delim/::': 500, 'delim/;': 1000, 'delim/|': 500, 'form/string': 700, 'form/infer': 500, 'form/list': 1700,
+    'nested': 1800, 'nested/string-or-infer': 350, 'blank-graded': 300, 'spaces': 2500,
+    'error/length': 250, 'error/missing': 350, 'error/inner': 150,
+    'msg/shown': 450, 'msg/withheld-zero-item': 900, 'msg/must-appear': 130,
+    'pc-false/full': 170, 'pc-false/zeroed-partial': 400, 'pc-false/full-with-credit<1': 40,
+    'perm-invariance-checked': 700, 'grade/partial': 800, 'grade/clamped-at-0': 200,
+    # exhaustive parts (deterministic counts; lower bounds)
+    'grid/optimum-beats-positional': 20000, 'grid/surplus+partial-credit': 5000, 'grid/missing+partial-credit': 500,
+    'grid/grade/clamped-at-0': 30000, 'grid/pc-false/full-with-credit<1': 4000, 'grid/msg/must-appear': 70000,
+    'grid/msg/withheld-zero-item': 70000, 'grid/perm-invariance-checked': 100000, 'grid/error/length': 3700,
+    'grid/error/missing': 2000, 'grid/blank-graded': 2000,
 }
 
 TOL = 1e-9
@@ -788,7 +794,9 @@ def case_specs(draw, depth, tier):
     max_ne = 5 if depth == 1 else 3
     ne = draw(st.integers(1, max_ne))
     same = draw(st.booleans()) if levels[0]['le'] else draw(st.sampled_from([True, True, False]))
-    ns = ne if same else draw(st.integers(1, 7 if depth == 1 else 4))
+    hi = 7 if depth == 1 else 4
+    ns = ne if same else draw(st.sampled_from([st.integers(1, hi), st.integers(1, hi), st.integers(1, ne),
+                                               st.integers(ne, hi)]).flatmap(lambda x: x))
     fixed_inner = draw(st.sampled_from([0, 0, 1, 2, 3])) if depth == 2 else 0
     if depth == 2 and levels[1]['le'] and not fixed_inner:
         fixed_inner = draw(st.integers(1, 3))
